@@ -56,7 +56,7 @@ class Config:
                 rs = False
             out.append({"dur": f[0], "rs": rs, "ph": self.ph(p.phase), "pps": self.ph(p.post_phase_shift),
                         "dd": bool(_ChannelSchedule.is_detuned_delay(p)),
-                        "am": f[3], "av": f[4], "dm": f[7], "dn": f[8], "fin": f[9] == 1})
+                        "am": f[3], "av": f[4], "dm": f[7], "dn": f[8], "dx": f[10], "fin": f[9] == 1})
         return out
 
     def _adjusted(self, p, ch):
@@ -100,7 +100,7 @@ class Config:
                 sps, cfs = [], []
                 if ch.supports_eom():
                     for (amp, don, opt) in self.setpoints:
-                        rec = {"amp": qv(amp), "don": qv(don), "doff": 0, "dofm": 0, "out": "ok"}
+                        rec = {"amp": qv(amp), "don": qv(don), "doff": 0, "out": "ok"}
                         try:
                             with warnings.catch_warnings():
                                 warnings.simplefilter("ignore")
@@ -108,7 +108,6 @@ class Config:
                                 doff = float(ch.eom_config.calculate_detuning_off(amp, don, float(opt)))
                                 ch.validate_pulse(Pulse.ConstantPulse(ch.min_duration, 0.0, doff, 0.0))
                             rec["doff"] = qv(doff)
-                            rec["dofm"] = int(round(doff * 1000))
                         except ValueError:
                             rec["out"] = "VE"
                             doff = 0.0
@@ -212,6 +211,103 @@ def core(depth=3):
     return Config("core", _core_devs(), pulses, calls, init, depth)
 
 
+def eom(depth=3, custom_buf=None, micro=False):
+    """EOM mode: enable / modify / pulse / delay / disable interleavings next to a plain channel.
+    micro=True: phases in 1e-6 rad with drift correction enabled (tolerance compare)."""
+    devs = [{
+        "nq": 2,
+        "chs": [
+            {"kind": "ryd", "addr": "G", "clock": 4, "minDur": 16, "bw": 8.0,
+             "eom": {"bw": 40.0, "buf": custom_buf, "controlled_beams": ("BLUE", "RED")}},
+            {"kind": "ryd", "addr": "G", "clock": 4, "minDur": 4},
+        ],
+    }]
+    pulses = [Pulse.ConstantPulse(100, 1.0, 0.0, 0.0),
+              Pulse.ConstantPulse(52, 2.0, -1.0, 0.5)]
+    setpoints = [(1.0, 0.0, 0.0), (2.0, -1.0, -10.0)]
+    calls = [{"op": "declare", "nm": 1, "cid": 1, "it": 0}, {"op": "declare", "nm": 2, "cid": 2, "it": 0}]
+    cpds = (False, True) if micro else (False,)
+    for sp in (1, 2):
+        for cpd in cpds:
+            calls.append({"op": "eom_on", "nm": 1, "sp": sp, "cpd": cpd})
+            calls.append({"op": "eom_mod", "nm": 1, "sp": sp, "cpd": cpd})
+    for cpd in cpds:
+        calls.append({"op": "eom_off", "nm": 1, "cpd": cpd})
+    u = 500000 if micro else 1          # 0.5 rad in phase units
+    for (dur, ph, proto) in ((16, 0, "min-delay"), (100, u, "min-delay"), (40, u, "no-delay")):
+        for cpd in cpds:
+            calls.append({"op": "eom_add", "nm": 1, "dur": dur, "ph": ph, "pps": 0, "proto": proto, "cpd": cpd})
+    calls.append({"op": "delay", "nm": 1, "d": 16, "rest": False})
+    calls.append({"op": "delay", "nm": 1, "d": 40, "rest": True})
+    calls.append({"op": "add", "nm": 1, "p": 1, "proto": "min-delay"})
+    calls.append({"op": "add", "nm": 1, "p": 2, "proto": "min-delay"})
+    calls.append({"op": "add", "nm": 2, "p": 1, "proto": "min-delay"})
+    calls.append({"op": "add", "nm": 2, "p": 2, "proto": "wait-for-all"})
+    calls.append({"op": "align", "nms": [1, 2], "rest": True})
+    c = Config("eom", devs, pulses, calls, [1, 2], depth, setpoints=setpoints, cf_max=80,
+               phase_unit=1e-6 if micro else 0.5, phase_mod=6283185 if micro else 0,
+               ptol=50 if micro else 0)
+    return c
+
+
+def typestate(depth=3):
+    """Every public building call with valid and invalid argument classes from every mode:
+    physical-like (channels declared once) and reusable devices, XY-capable, DMM + SLM."""
+    chs = [
+        {"kind": "ryd", "addr": "G", "clock": 4, "minDur": 8, "bw": 8.0, "maxAmp": 10.0,
+         "eom": {"bw": 40.0, "controlled_beams": ("BLUE", "RED")}},
+        {"kind": "ram", "addr": "L", "clock": 4, "minDur": 8, "minRet": 20, "fixRet": 0, "maxTg": 1},
+        {"kind": "mw", "addr": "G", "clock": 4, "minDur": 8},
+        {"kind": "dmm", "clock": 4, "minDur": 8, "bottom": -20.0, "totalBottom": -30.0},
+        {"kind": "dmm", "clock": 4, "minDur": 8},
+    ]
+    devs = [{"nq": 2, "slm": True, "reusable": False, "chs": chs},
+            {"nq": 2, "slm": True, "reusable": True, "chs": chs}]
+    pulses = [Pulse.ConstantPulse(16, 1.0, 0.0, 0.0),
+              Pulse.ConstantAmplitude(0, ConstantWaveform(16, -5.0), 0.0),
+              Pulse.ConstantAmplitude(0, ConstantWaveform(16, -18.0), 0.0)]
+    setpoints = [(1.0, 0.0, 0.0)]
+    P = "min-delay"
+    calls = [
+        {"op": "declare", "nm": 1, "cid": 1, "it": 0},
+        {"op": "declare", "nm": 2, "cid": 2, "it": 1},
+        {"op": "declare", "nm": 2, "cid": 2, "it": 0},
+        {"op": "declare", "nm": 3, "cid": 3, "it": 0},
+        {"op": "declare", "nm": 4, "cid": 1, "it": 0},      # id used twice
+        {"op": "declare", "nm": 1, "cid": 2, "it": 4},      # name used twice / unknown qubit
+        {"op": "declare", "nm": 5, "cid": 9, "it": 0},      # unknown id
+        {"op": "target", "nm": 2, "tg": 2},
+        {"op": "target", "nm": 1, "tg": 1},                 # global channel
+        {"op": "add", "nm": 1, "p": 1, "proto": P},
+        {"op": "add", "nm": 2, "p": 1, "proto": P},
+        {"op": "add", "nm": 3, "p": 1, "proto": P},
+        {"op": "add", "nm": 1, "p": 1, "proto": "bad"},
+        {"op": "add", "nm": 100, "p": 2, "proto": P},       # add() on a DMM
+        {"op": "delay", "nm": 1, "d": 16, "rest": False},
+        {"op": "delay", "nm": 100, "d": 16, "rest": False},
+        {"op": "measure", "basis": "ground-rydberg"},
+        {"op": "measure", "basis": "XY"},
+        {"op": "pshift", "phi": 1, "tg": 1, "basis": "ground-rydberg"},
+        {"op": "detmap", "mp": [2, 3], "w2": [2, 1], "cid": 4},
+        {"op": "detmap", "mp": [2, 2], "w2": [0, 2], "cid": 5},
+        {"op": "detmap", "mp": [2, 2], "w2": [0, 2], "cid": 1},    # not a DMM
+        {"op": "slm", "tg": 1, "cid": 4},
+        {"op": "slm", "tg": 3, "cid": 5},
+        {"op": "dmm_add", "nm": 100, "p": 2, "proto": "no-delay"},
+        {"op": "dmm_add", "nm": 100, "p": 3, "proto": "no-delay"},   # below bottom * weight
+        {"op": "dmm_add", "nm": 101, "p": 3, "proto": P},
+        {"op": "dmm_add", "nm": 1, "p": 2, "proto": P},              # not a DMM
+        {"op": "magfield", "zero": False},
+        {"op": "magfield", "zero": True},
+        {"op": "align", "nms": [1, 2], "rest": True},
+        {"op": "eom_on", "nm": 1, "sp": 1, "cpd": False},
+        {"op": "eom_add", "nm": 1, "dur": 16, "ph": 0, "pps": 0, "proto": P, "cpd": False},
+        {"op": "eom_off", "nm": 1, "cpd": False},
+        {"op": "est", "nm": 1, "p": 1, "proto": P},
+    ]
+    return Config("typestate", devs, pulses, calls, [], depth, setpoints=setpoints, cf_max=40)
+
+
 def instances(name, tier):
     """The configurations of family `name` for a tier (each with a unique .name tag)."""
     quick = tier != "thorough"
@@ -219,11 +315,29 @@ def instances(name, tier):
         c = core(3 if quick else 4)
         c.name = f"core-d{c.max_depth}"
         return [c]
+    if name == "typestate":
+        c = typestate(3 if quick else 4)
+        c.name = f"typestate-d{c.max_depth}"
+        return [c]
+    if name == "eomdrift":
+        out = []
+        for buf in (None, 240):
+            c = eom(3 if quick else 4, custom_buf=buf, micro=True)
+            c.name = f"eomdrift-b{buf or 0}-d{c.max_depth}"
+            out.append(c)
+        return out
+    if name == "eom":
+        out = []
+        for buf in (None, 240):
+            c = eom(3 if quick else 4, custom_buf=buf)
+            c.name = f"eom-b{buf or 0}-d{c.max_depth}"
+            out.append(c)
+        return out
     raise KeyError(name)
 
 
 def by_tag(tag):
-    fam, _, d = tag.rpartition("-d")
+    fam = tag.split("-")[0]
     for tier in ("quick", "thorough"):
         for c in instances(fam, tier):
             if c.name == tag:
